@@ -26,7 +26,10 @@ def signatures(tier):
                     for kodef in itertools.product([False, True], repeat=n3):
                         for var in (False, True):
                             for varkw in (False, True):
-                                for with_self in (False, True):
+                                kinds = [False, True]
+                                if n1 + n2 + n3 <= (1 if tier == "quick" else 2):
+                                    kinds += ["cls", "static", "async"]  # class method, static method, async function
+                                for with_self in kinds:
                                     out.append({"po": n1, "pk": n2, "ko": n3, "ndef": ndef, "kodef": list(kodef),
                                                 "var": var, "varkw": varkw, "self": with_self})
     return out
@@ -38,8 +41,10 @@ def sig_text(s):
     ndef = s["ndef"]
     defaulted = set(pos[len(pos) - ndef:]) if ndef else set()
     parts = []
-    if s["self"]:
+    if s["self"] is True:
         parts.append("self")
+    elif s["self"] == "cls":
+        parts.append("cls")
     for i, n in enumerate(PO[: s["po"]]):
         parts.append("{}=D_{}".format(n, n) if n in defaulted else n)
     if s["po"]:
@@ -98,8 +103,13 @@ def render(s, unknown=None, cdef=False):
                  ", ".join(["result", "OLD", "_ARGS", "_KWARGS"] + [n + dflt for n in named]), dct))
     if unknown:
         w.append("def c_unknown({0}):\n    LOG.append(('pre_unknown', '{0}', id({0})))\n    return True\n".format(unknown))
-    ind = "    " if s["self"] else ""
+    in_class = s["self"] in (True, "cls", "static")
+    ind = "    " if in_class else ""
     decos = []
+    if s["self"] == "cls":
+        decos.append("@classmethod")
+    elif s["self"] == "static":
+        decos.append("@staticmethod")
     if unknown:
         decos.append("@icontract.require(c_unknown)")
     decos.append("@icontract.snapshot(cap, name='snap')")
@@ -108,11 +118,11 @@ def render(s, unknown=None, cdef=False):
     for n in reversed(named):
         decos.append("@icontract.require(c_{})".format(n))
     decos.append("@icontract.ensure(q, error=ef)")
-    if s["self"]:
+    if in_class:
         w.append("class K:\n")
     for d in decos:
         w.append(ind + d + "\n")
-    w.append(ind + "def f({}):\n".format(params))
+    w.append(ind + "{}def f({}):\n".format("async " if s["self"] == "async" else "", params))
     w.append(ind + "    LOG.append(('body', {}, tuple(id(v) for v in {}), tuple(sorted((k, id(v)) for k, v in {}.items()))))\n".format(
         dct, "args" if s["var"] else "()", "kwargs" if s["varkw"] else "{}"))
     w.append(ind + "    return R\n")
@@ -133,17 +143,25 @@ def check_sig(s, acc, unknown=None, cdef=False):
     src, named, defaulted = render(s, unknown, cdef)
     ns = core.fresh_ctx_run(core.load_source, src, "c05")
     try:
-        if s["self"]:
+        obj = None
+        if s["self"] is True:
             obj = ns["K"]()
             func = obj.f
             raw = ns["K"].__dict__["f"]
+        elif s["self"] in ("cls", "static"):
+            func = ns["K"].f
+            raw = ns["K"].__dict__["f"].__func__
+        elif s["self"] == "async":
+            afunc = ns["f"]
+            func = lambda *a, **k: core.run_coro(afunc(*a, **k))
+            raw = afunc
         else:
             func = ns["f"]
             raw = func
         # the signature of the *original* function is what Python binds against
         orig = inspect.unwrap(raw)
         sig = inspect.signature(orig)
-        selfargs = (obj,) if s["self"] else ()
+        selfargs = (obj,) if s["self"] is True else ((ns["K"],) if s["self"] == "cls" else ())
         Obj = ns["Obj"]
         key0 = json.dumps(s, sort_keys=True) + "|" + str(unknown) + "|" + str(cdef)
         for npos, kws in call_shapes(s, named):
@@ -235,7 +253,7 @@ def items(tier):
         out.append((s, None, False))
         if s["po"] + s["pk"] + s["ko"]:
             out.append((s, None, True))
-        if not s["self"] or tier == "thorough":
+        if s["self"] is False or tier == "thorough":
             out.append((s, "nope", False))
             if s["varkw"]:
                 out.append((s, "z", False))
